@@ -136,7 +136,8 @@ def ops_cases(ctx):
     rng = ctx.rng(3503)
     out = []
     for (no, nn) in [(8, 4), (8, 8), (12, 8), (10, 8), (7, 4), (6, 4), (5, 4), (4, 2), (3, 2), (16, 4), (9, 8), (2, 1), (2, 2)]:
-        out.append({"kind": "regrid", "n_old": no, "n_new": nn, "v": [int(x) for x in rng.integers(-8, 9, size=no)]})
+        out.append({"kind": "regrid", "n_old": no, "n_new": nn, "v": [int(x) for x in rng.integers(-8, 9, size=no)],
+                    "w": [int(x) for x in rng.integers(-8, 9, size=nn)]})
     for n in range(1, 8):
         for nn in range(n, n + 4):
             for central in (False, True):
@@ -177,7 +178,10 @@ def observe(c):
     if k == "regrid":
         dom = ift.RGSpace((c["n_old"],))
         op = ift.RegriddingOperator(dom, (c["n_new"],))
-        return {"y": op(ift.makeField(dom, np.array(c["v"], dtype=float))).asnumpy()}
+        o = {"y": op(ift.makeField(dom, np.array(c["v"], dtype=float))).asnumpy()}
+        if c.get("w") is not None:
+            o["z"] = op.adjoint(ift.makeField(op.target, np.array(c["w"], dtype=float))).asnumpy()
+        return o
     if k == "pad":
         dom = ift.RGSpace((c["n"],))
         op = ift.FieldZeroPadder(dom, (c["n_new"],), central=c["central"])
@@ -211,6 +215,8 @@ def checks_for(c, o):
                 C.cq(corfac), C.cq(tol), cql(row))))
     elif k == "regrid":
         out.append(("regrid", "regrid_case %s %s %s" % (cql(c["v"]), C.cz(c["n_new"]), cql(o["y"]))))
+        if "z" in o:
+            out.append(("regrid_adj", "regrid_adj_case %s %s %s" % (cql(c["w"]), C.cz(c["n_old"]), cql(o["z"]))))
     elif k == "pad":
         out.append(("pad", "pad_case %s %s %d %s" % (C.cbool(c["central"]), cql(c["v"]), c["n_new"], cql(o["y"]))))
         out.append(("crop", "crop_case %s %s %d %s" % (C.cbool(c["central"]), cql(c["w"]), c["n"], cql(o["z"]))))
@@ -442,6 +448,12 @@ def direct_failure(c):
             want[i] = v[b] * (1 - fr) + v[b + 1] * fr
         if np.max(np.abs(o["y"] - want)) > 1e-9 * max(1.0, np.max(np.abs(v))):
             return ("regrid", "regridding %d -> %d differs from linear interpolation at positions i*n_old/n_new" % (no, nn))
+        if "z" in o:
+            w = np.array(c["w"], dtype=float)
+            if abs(float(o["y"] @ w) - float(v @ o["z"])) > 1e-9 * max(1.0, float(np.abs(v).sum() * np.abs(w).sum())):
+                return ("regrid-adjoint", "regridding %d -> %d: <Rv,w> != <v,R^T w>" % (no, nn))
+            if len(o["z"]) != no or abs(float(o["z"].sum()) - float(w.sum())) > 1e-9 * max(1.0, float(np.abs(w).sum())):
+                return ("regrid-adjoint", "adjoint regridding %d -> %d does not conserve the total" % (no, nn))
         return None
     if k == "pad":
         o = observe(c)
